@@ -123,7 +123,7 @@ def comb_programs(rng, n):
         v = G.gen_value(rng, t)
         idx = rng.randrange(k)
         nn = 2 * idx + 1 if idx < k - 1 else 2 * idx
-        kind = rng.choice(['GET n', 'UPDATE n', 'UNPAIR n', 'PACK', 'COMPARE', 'PACK;UNPACK', 'CAR/CDR', 'nested'])
+        kind = rng.choice(['GET n', 'UPDATE n', 'UNPAIR n', 'PACK', 'COMPARE', 'PACK;UNPACK', 'CAR/CDR', 'nested', 'field-then-None', 'field-then-None'])
         if kind == 'GET n':
             code = [PUSH(t, v), I('GET', N(rng.choice([nn, rng.randint(0, 2 * k - 2)])))]
         elif kind == 'UPDATE n':
@@ -136,6 +136,23 @@ def comb_programs(rng, n):
             code = [PUSH(t, v), I('PACK'), I('UNPACK', TY(t))]
         elif kind == 'COMPARE':
             code = [PUSH(t, G.gen_value(rng, t)), PUSH(t, v), I('COMPARE')]
+        elif kind == 'field-then-None':
+            which = rng.choice(['SLICE', 'ISNAT', 'EDIV', 'GET', 'SUB_MUTEZ', 'LIST'])
+            if which == 'SLICE':
+                st = rng.choice([T.STRING, T.BYTES])
+                code = [PUSH(T.pair(st, T.NAT), (G.gen_value(rng, st), 3)), rng.choice([I('CAR'), I('GET', N(1))]), PUSH(T.NAT, rng.choice([0, 5, 50])),
+                        PUSH(T.NAT, rng.choice([0, 9, 40])), I('SLICE')]
+            elif which == 'ISNAT':
+                code = [PUSH(T.pair(T.INT, T.NAT), (rng.choice([-5, 0, 7]), 1)), I('CAR'), I('ISNAT')]
+            elif which == 'EDIV':
+                code = [PUSH(T.pair(T.NAT, T.NAT), (7, rng.choice([0, 2]))), I('UNPAIR'), I('EDIV')]
+            elif which == 'GET':
+                code = [PUSH(T.pair(T.map_(T.STRING, T.NAT), T.STRING), ([('a', 1)], rng.choice(['a', 'zz']))), I('UNPAIR'), I('SWAP'), I('GET')]
+            elif which == 'SUB_MUTEZ':
+                code = [PUSH(T.pair(T.MUTEZ, T.MUTEZ), (5, rng.choice([3, 9]))), I('UNPAIR'), I('SUB_MUTEZ')]
+            else:
+                code = [PUSH(T.pair(T.NAT, T.STRING), (1, 'x')), I('UNPAIR'), I('NIL', TY(T.NAT)), I('SWAP'), I('CONS'), I('SWAP'), I('SOME'), I('PAIR'),
+                        I('NONE', TY(T.pair(T.list_(T.NAT), T.option(T.STRING)))), I('SWAP'), I('SOME'), I('PAIR')]
         elif kind == 'CAR/CDR':
             code = [PUSH(t, v), I('DUP'), I('CAR'), I('SWAP'), I('CDR'), I('PAIR')]
         else:
